@@ -34,10 +34,20 @@ Er(e, st)  == [v |-> NaN, st |-> st, err |-> e]
 
 \* --- domain guard: keep every intermediate inside TLC's 32-bit integers
 Small(x) == x.k # "fin" \/ (x.n < 32768 /\ x.d < 32768)
+\* a format so wide that every value the machine holds (numerator and denominator below 2^15) is a member: binary64, binary32 ...
 BigCtx(c) ==
     CASE c.fam = "real" -> FALSE
-      [] c.fam = "efloat" -> c.nbits > 10
-      [] c.fam \in {"mpfloat", "mpsfloat", "mpbfloat"} -> c.p > 10 \/ (c.fam # "mpfloat" /\ c.emin < -12)
+      [] c.fam = "efloat" -> c.nbits - c.es >= 15 /\ c.es >= 6
+      [] c.fam \in {"mpfloat", "mpsfloat", "mpbfloat"} -> c.p >= 15 /\ (c.fam = "mpfloat" \/ c.emin < -30)
+      [] c.fam \in {"mpfixed", "mpbfixed"} -> c.nmin < -16
+      [] c.fam \in {"fixed", "smfixed"} -> c.scale < -16 /\ c.nbits + c.scale > 16
+      [] c.fam = "exp" -> FALSE
+\* a format that is neither wide in that sense nor small enough for Rounding!RoundVal within TLC's integers: such runs are skipped
+Unmodelled(c) ==
+    ~BigCtx(c) /\
+    CASE c.fam = "real" -> FALSE
+      [] c.fam = "efloat" -> c.nbits - c.es > 12 \/ c.es > 5
+      [] c.fam \in {"mpfloat", "mpsfloat", "mpbfloat"} -> c.p > 12 \/ (c.fam # "mpfloat" /\ c.emin < -12)
       [] c.fam \in {"mpfixed", "mpbfixed"} -> c.nmin < -12 \/ c.nmin > 12
       [] c.fam \in {"fixed", "smfixed"} -> c.nbits > 12 \/ c.scale < -12 \/ c.scale > 12
       [] c.fam = "exp" -> c.nbits > 4
@@ -45,6 +55,7 @@ BigCtx(c) ==
 MRound(c, x, st) ==
     IF ~Small(x) THEN Er("OutOfDomain", st)          \* every value the machine holds stays small
     ELSE IF c.fam = "real" THEN Ok(x, st)
+    ELSE IF Unmodelled(c) THEN Er("OutOfDomain", st)
     ELSE IF BigCtx(c) THEN
         \* a wide format (binary64 ...): every small dyadic value is a member
         (IF x.k # "fin" \/ IsDyadic(x) THEN Ok(x, st) ELSE Er("OutOfDomain", st))
